@@ -113,8 +113,36 @@ func c19R8(c *Ctx) {
 	}
 	if fn := c.SSA(r, pAtomicfile, "WriteFile"); fn != nil {
 		rename := c.ExtFunc(r, "os", "Rename")
-		nilRets, _ := kit.NilReturns(fn)
-		c.Dominated(r, "atomicfile.WriteFile: success only after the rename", asInstrs(nilRets), okGates(kit.CallsTo(fn, Set(rename)), ""), "the os.Rename success edge (no path creates the target in place)")
+		// every return that may be nil: `return nil` and `return helper(...)` (a call other than an error constructor)
+		var mayNil []ssa.Instruction
+		for _, ret := range kit.Returns(fn) {
+			v := kit.RetVal(ret, len(ret.Results)-1)
+			if kit.IsNilConst(v) {
+				mayNil = append(mayNil, ret)
+				continue
+			}
+			if call, ok := v.(*ssa.Call); ok {
+				name := ""
+				if f := kit.CalleeOf(call.Common()); f != nil && f.Pkg() != nil {
+					name = f.Pkg().Path()
+				} else if u, ok := call.Call.Value.(*ssa.UnOp); ok {
+					if gl, ok := u.X.(*ssa.Global); ok && gl.Pkg != nil {
+						name = gl.Pkg.Pkg.Path()
+					}
+				}
+				if strings.HasSuffix(name, "/cerrors") || strings.HasSuffix(name, "/conduiterr") || name == "errors" || name == "fmt" {
+					continue // a freshly constructed error
+				}
+			}
+			// any other value: nil unless this return lies behind its own != nil edge
+			if es := kit.NilEdges(v, false); len(es) > 0 {
+				if known, _ := kit.MustPass(ret, kit.NewGates().AddEdges(es, "")); known {
+					continue
+				}
+			}
+			mayNil = append(mayNil, ret)
+		}
+		c.Dominated(r, "atomicfile.WriteFile: success only after the rename", mayNil, okGates(kit.CallsTo(fn, Set(rename)), ""), "the os.Rename success edge (no path creates the target in place)")
 	}
 }
 
